@@ -106,6 +106,10 @@ PairLaws(x, y) ==
   /\ \A k \in Scalars :
        /\ CEq(CScale(k, CAdd(x, y)), CAdd(CScale(k, x), CScale(k, y)))  \* scaling distributes over +
        /\ CDot(CScale(k, x), y) = k * CDot(x, y)                        \* dot homogeneous
+       \* common factor: (k x).(k y) = k^2 (x.y), |k x|^2 = k^2 |x|^2 - the law the harness also instantiates with
+       \* FLOAT factors k = 1e-9, 1e-20, 1e15 (components of any size; compared with relative tolerance)
+       /\ CDot(CScale(k, x), CScale(k, y)) = k * k * CDot(x, y)
+       /\ CMagSq(CScale(k, x)) = k * k * CMagSq(x)
        /\ CEq(CCross(CScale(k, x), y), CScale(k, CCross(x, y)))         \* cross homogeneous
        /\ \A m \in Scalars : CEq(CScale(k + m, x), CAdd(CScale(k, x), CScale(m, x)))
   /\ CDot(x, y) = CDot(y, x)                                            \* symmetric
@@ -148,7 +152,10 @@ NaryRefusalRules ==
 Verdicts(a, b) == [add |-> Verdict("add", a, b), sub |-> Verdict("sub", a, b), dot |-> Verdict("dot", a, b),
                    cross |-> Verdict("cross", a, b), proj |-> Verdict("proj", a, b),
                    rej |-> Verdict("rej", a, b), eq |-> Verdict("eq", a, b),
-                   \* scale / magnitude / unit of ONE vector: the statement speaks about Cartesian vectors only
+                   \* scale / magnitude / unit of ONE vector: the statement speaks about Cartesian vectors only.  The
+                   \* operators above are FUNCTIONS of their operands: the value may not depend on what was
+                   \* computed before (the harness evaluates these clauses before and after the same component
+                   \* tuples were used in a cylindrical, a spherical and another Cartesian system)
                    un |-> IF IsCart(a) THEN "accept" ELSE "open"]
 
 ScalarSeq == LET RECURSIVE ToSeq(_)
@@ -159,7 +166,7 @@ ScalarSeq == LET RECURSIVE ToSeq(_)
 PairCase(a, b) ==
   [n |-> 2, sa |-> a.sys, sb |-> b.sys, a |-> a.c, b |-> b.c, verdict |-> Verdicts(a, b),
    add |-> Pad3(CAdd(a.c, b.c)), sub |-> Pad3(CSub(a.c, b.c)), dot |-> CDot(a.c, b.c),
-   cross |-> CCross(a.c, b.c), msq |-> CMagSq(a.c), eq |-> CEq(a.c, b.c),
+   cross |-> CCross(a.c, b.c), msq |-> CMagSq(a.c), msqb |-> CMagSq(b.c), eq |-> CEq(a.c, b.c),
    ks |-> ScalarSeq, scale |-> [i \in DOMAIN ScalarSeq |-> Pad3(CScale(ScalarSeq[i], a.c))],
    pden |-> ProjDen(b.c), pnum |-> Pad3(ProjNum(a.c, b.c)), rnum |-> Pad3(RejNum(a.c, b.c)),
    usq |-> IF IsZero(a.c) THEN <<>> ELSE [i \in 1..3 |-> IF i <= Len(a.c) THEN UnitSq(a.c)[i] ELSE RZero], usign |-> Pad3(UnitSign(a.c))]
